@@ -373,6 +373,28 @@ def flow_enum_cfgs(As: List[int], Ps: List[int], Ns: List[int], Ws: List[int], M
             for A in As for P in Ps for N in Ns for W in Ws]
 
 
+def gen_sync_drain(seed: int, n: int) -> List[Scn]:
+    """Shutdown whose drain timeout runs out while synchronous task functions are still running in pool threads.
+
+    Afterwards the functions finish: nothing (acknowledgement, stored result) may have pretended earlier that they had.
+    """
+    rng = random.Random(("syncdrain", seed).__repr__())
+    out = []
+    for _ in range(n):
+        A = rng.choice([0, 3, 4])
+        W = rng.choice([1, 2, 3])
+        M = rng.randint(1, 3)
+        msgs: List[Dict[str, Any]] = [{"task": "ts0", "slow": True} if (j == 0 or rng.random() < 0.5) else {"task": "ta0"} for j in range(M)]
+        cfg = {"A": A, "P": rng.choice([0, 1]), "W": W, "ack": rng.choice(["default", "when_executed", "when_saved", "when_received"]),
+               "ack_async": rng.random() < 0.3, "msgs": msgs}
+        steps: List[Any] = [["arrive", M], ["adv_rel", rng.choice([0, 1, 4])]]
+        if rng.random() < 0.3:
+            steps.append(["fin_any", rng.randint(0, 2), rng.choice(["ret", "exc"])])
+        steps += [["stop"], ["adv_rel", W + rng.choice([4, 7])], ["fin_all", rng.choice(["ret", "exc"])], ["adv_rel", 3]]
+        out.append({"cfg": cfg, "steps": steps, "family": "sync_drain", "noconf": True})
+    return out
+
+
 def gen_stop_sweep(seed: int, n: int) -> List[Scn]:
     """C05: take a random base scenario and insert the stop request at every position."""
     rng = random.Random(("stop", seed).__repr__())
@@ -395,6 +417,13 @@ def gen_stop_sweep(seed: int, n: int) -> List[Scn]:
             # acknowledgement that takes time (a Future the broker hands back): shutdown must wait for it as well
             cfg["ack_future"] = True
             cfg["ack"] = rng.choice(["default", "when_executed", "when_received", "when_saved"])
+        if "mws" not in cfg and not cfg.get("ack_future") and rng.random() < 0.3:
+            # synchronous task functions that keep running in a pool thread (after a drain timeout the function is still
+            # running: nothing may pretend it has finished)
+            for mc in cfg["msgs"]:
+                if rng.random() < 0.5:
+                    mc.update({"task": "ts0", "slow": True})
+            cfg["ack"] = rng.choice(["default", "when_executed", "when_saved", "when_received"])
         base = _flow_steps(rng, cfg, rng.randint(3, 8), ["ret", "exc"], midflight=False, stop_p=0.0)
         endless = rng.random() < 0.4
         for pos in range(len(base) + 1):
@@ -410,5 +439,9 @@ def gen_stop_sweep(seed: int, n: int) -> List[Scn]:
                 steps += [["adv_rel", 2], ["fin_all", "ret"], ["adv_rel", max(W, 0) + 6]]
             if cfg.get("ack_future"):
                 steps += [["gate_all"], ["adv_rel", 4]] if rng.random() < 0.7 else []
-            out.append({"cfg": cfg, "steps": steps, "family": "stop_sweep"})
+            scn: Scn = {"cfg": cfg, "steps": steps, "family": "stop_sweep"}
+            if any(mc.get("slow") for mc in cfg["msgs"]):
+                scn["noconf"] = True             # worker threads are not part of Receiver.tla
+                scn["steps"] = steps + [["fin_all", "ret"], ["adv_rel", 3]]
+            out.append(scn)
     return out[:n]
